@@ -144,6 +144,13 @@ def run(spec, res):
     ioapi = 'ioapi' in spec['file']
     f = gen_ioapi.build(spec['file']['ioapi']) if ioapi else \
         gen_core.build(spec['file'])
+    if ioapi and spec['file']['ioapi']['seed'] % 3 == 0:
+        # attributes are carried over as they are: a descriptive long_name
+        # (not the padded variable name the IOAPI class writes by default)
+        k0 = spec['file']['ioapi']['names'][0]
+        f.variables[k0].long_name = 'Descriptive name'
+        f.variables[k0].var_desc = 'free text about the variable'.ljust(80)
+        res.facet('ioapi:custom-long_name')
     before = snapshot.snap_file(f)
     seld = {d: s for d, s in spec['sel']}
     kw = {d: refsel.dec_sel(s) for d, s in spec['sel']}
